@@ -56,7 +56,7 @@ def run_scenario(chk, sc, cfgseed, how, field, axes, scale, ext=6, ext_cut=False
                3: lambda lv, shape: np.random.default_rng(cfgseed + lv).uniform(0.0, 1.0, shape)}
     flds = lattice.Fields(lat, cfgseed, payload="tame", special=special)
     ap = lat.ap("A", FIELDS, files_of=lambda lv, b: rng.randint(1, 3), shuffle=lambda lv, f, v: rng.sample(v, len(v)))
-    d = chk.tmp()
+    d = chk.tmp_reuse()
     os.makedirs(d)
     src = os.path.join(d, "plt")
     gamma.write_plotfile(src, ap, cfg_, values=flds.values)
